@@ -272,6 +272,20 @@ def run_cat(ctx, p):
             ctx.call(s, nodes[:: max(1, len(nodes) // 400)], t)
 
 
+# ---- dedicated Guderley sweep: all three regions (undisturbed, behind the converging shock, behind the reflected shock) --------
+def gen_gud(rng, i, tier):
+    return dict(geometry=2 + i % 2, gamma=[3.0, 2.0, 2.5, 6.0][(i // 2) % 4], rho0=[logu(rng, 0.1, 10), 1.0][(i // 8) % 2],
+                t=[uni(rng, 0.05, 0.7), uni(rng, 0.8, 1.0), uni(rng, 1.0, 1.6)][i % 3], pseed=int(rng.integers(2 ** 31)))
+
+
+def run_gud(ctx, p):
+    from exactpack.solvers.guderley.guderley import Guderley
+    s = ctx.make(Guderley, geometry=p["geometry"], gamma=p["gamma"], rho0=p["rho0"])
+    rng = np.random.default_rng(p["pseed"])
+    r = np.sort(np.exp(rng.uniform(np.log(0.02), np.log(3.0), size=40)))
+    ctx.call(s, r, p["t"])                       # judged by the online EOS monitor
+
+
 # ---- dedicated Riemann sweep -----------------------------------------------------------------
 def gen_rm(rng, i, tier):
     jwl = (i % 10 == 9)
@@ -403,6 +417,7 @@ def run_suite(ctx, p):
 
 UNITS = [
     Unit("catalogue", gen_cat, run_cat, quick=480, thorough=4800, min_nontrivial=400),
+    Unit("guderley", gen_gud, run_gud, quick=12, thorough=96, min_nontrivial=12),
     Unit("riemann", gen_rm, run_rm, quick=400, thorough=6000, min_nontrivial=300),
     Unit("piston", gen_pis, run_pis, quick=90, thorough=1800, min_nontrivial=60),
     Unit("bbnoh", gen_bb, run_bb, quick=120, thorough=2400, min_nontrivial=60),
